@@ -5,7 +5,7 @@ stop requests."""
 from checks import _train_common as T
 
 PROP = "C07"
-QUICK_RUNS = 6400
+QUICK_RUNS = 4800
 RULE = (
     "one case = one seeded fit() history (state type, N in 1..12(16), batch sizes with N<bs, N=m*bs, N=m*bs+r, "
     "neg_batch_size given or defaulted, with/without bases, duplicate rows, data as tensor/float32 tensor/ndarray/list, "
